@@ -339,6 +339,24 @@ def m_identity_decorator(I, path, args, kwargs):
     return Stub("identity-decorator", lambda I2, p2, a2, k2: a2[0])
 
 
+def m_cache_decorator(I, path, args, kwargs):
+    """functools.cache / lru_cache applied as a call (`g = cache(f)`): the same function, marked memoised, so that a
+    contract can tell a memoised alias from the function itself (`memo_call` hook)."""
+    if len(args) == 1 and isinstance(args[0], Closure) and not kwargs:
+        f = args[0]
+        c = Closure(f.node, f.env, f.qualname, f.module, f.self_obj, f.defaults)
+        c.memoised = True
+        return c
+    if len(args) == 1 and isinstance(args[0], Stub) and not kwargs:
+        st = args[0]
+        c = Stub(st.name, st.fn, st.assumed)
+        c.memoised = True
+        if hasattr(st, "qualname"):
+            c.qualname = st.qualname
+        return c
+    return m_identity_decorator(I, path, args, kwargs)
+
+
 def m_cast(I, path, args, kwargs):
     return args[1]
 
@@ -358,7 +376,7 @@ def install(I: Interp):
         B.zip: m_zip, B.tuple: m_tuple, B.list: m_list, B.type: m_type, B.bool: m_bool, B.any: m_any,
         B.all: m_all, B.getattr: m_getattr, B.setattr: m_setattr, B.hasattr: m_hasattr, B.dict: m_dict, B.set: m_set,
         B.range: m_range, typing.cast: m_cast, B.repr: m_repr, B.next: m_next, B.divmod: m_divmod,
-        ft.cache: m_identity_decorator, ft.lru_cache: m_identity_decorator, ft.wraps: None,
+        ft.cache: m_cache_decorator, ft.lru_cache: m_cache_decorator, ft.wraps: None,
         dataclasses.dataclass: m_identity_decorator,
     }
     bm = {k: v for k, v in bm.items() if v is not None}
